@@ -259,6 +259,12 @@ class C11IndexND(Harness):
         for sp in ("s,s", "i,s", "s,i", "i", "t,:", ":,t"):
             yield f"nd-S2x3-{sp.replace(',', '_').replace(':', 'c')}-fixed", dict(shape=[2, 3], spec=sp, fixed=True)
         yield "nd-S2x3-c_t-numpy", dict(shape=[2, 3], spec=":,t", numpy=True)
+        # an ND source whose second axis has a gap between its bins (pairs), indexed by integers / slices
+        for sp in ("i,i", "i,s", ":,i"):
+            yield f"nd-S2x3-{sp.replace(',', '_').replace(':', 'c')}-gapped", dict(shape=[2, 3], spec=sp, gapped=True)
+        # select() with the axis given by name
+        for sp in ("s", "i"):
+            yield f"nd-S2x3-select-byname-{sp}", dict(shape=[2, 3], spec=":," + sp, byname=True)
         yield "nd-neg-step", dict(shape=[2, 3], spec="r")
 
     def declare(self, cx, p):
@@ -289,6 +295,13 @@ class C11IndexND(Harness):
         if p.get("numpy"):
             NB = E.mod("physt.binnings").NumpyBinning
             mk = lambda e: NB(np.asarray(e))  # noqa: E731
+        if p.get("gapped"):
+            # bins [e0, e1], [e1 + 1, e2 + 1], ... on axis 1 (a gap of 1 after the first bin); axis 0 stays consecutive
+            def mk(e, _first=[True]):   # noqa: B006
+                if _first[0]:
+                    _first[0] = False
+                    return np.asarray(e)
+                return np.asarray([[e[0], e[1]]] + [[e[j] + 1.0, e[j + 1] + 1.0] for j in range(1, len(e) - 1)])
         h = cls([mk(x["e"][k]) for k in range(D)], np.asarray(nested(x["f"], shape), dtype=int), errors2=np.asarray(nested(x["q"], shape), dtype=int), axis_names=names, name="n")
         if p.get("touch"):
             _touch(h)
@@ -305,7 +318,10 @@ class C11IndexND(Harness):
             else:
                 key.append(slice(None))
         idx = tuple(key) if len(key) > 1 else key[0]
-        r = E.attempt(lambda: h[idx])
+        if p.get("byname"):
+            r = E.attempt(h.select, names[1], key[1])
+        else:
+            r = E.attempt(lambda: h[idx])
         shares = (not isinstance(r, (Raised, tuple))) and any(rb is sb for rb in r._binnings for sb in h._binnings)
         mem = (not isinstance(r, (Raised, tuple))) and (bool(np.shares_memory(r.frequencies, h.frequencies)) or bool(np.shares_memory(r.errors2, h.errors2)))
         return {"res": _snap_any(E, r), "after": snapnd(E, h), "distinct": r is not h, "shares_binning": shares, "shares_memory": mem, "source_right_flags": [bool(b.includes_right_edge) for b in h._binnings]}
@@ -319,6 +335,8 @@ class C11IndexND(Harness):
         q = {i: cx.t(v) for i, v in zip(idxs, x["q"])}
         e = [[cx.t(t) for t in x["e"][k]] for k in range(D)]
         aft = obs["after"]
+        # (left, right) per bin; the gapped source shifts every bin of axis 1 after the first by 1
+        LR = [[(e[k][j] + (1 if (p.get("gapped") and k == 1 and j > 0) else 0), e[k][j + 1] + (1 if (p.get("gapped") and k == 1 and j > 0) else 0)) for j in range(shape[k])] for k in range(D)]
         yield "source_unchanged", z3.And([cx.eq(getcell(aft["freq"], i), f[i]) for i in idxs] + [cx.eq(getcell(aft["err2"], i), q[i]) for i in idxs]
                                          + [z3.BoolVal(aft["shape"] == shape and aft["axis_names"] == names)])
         res = obs["res"]
@@ -359,7 +377,7 @@ class C11IndexND(Harness):
             yield "scalar_case", "tuple" in res
             if "tuple" in res:
                 i = tuple(s[0] for s in sel)
-                yield "scalar_value", z3.And([cx.eq(res["tuple"][1], f[i])] + [z3.And(cx.t(res["tuple"][0][k][0]) == e[k][i[k]], cx.t(res["tuple"][0][k][1]) == e[k][i[k] + 1]) for k in range(D)])
+                yield "scalar_value", z3.And([cx.eq(res["tuple"][1], f[i])] + [z3.And(cx.t(res["tuple"][0][k][0]) == LR[k][i[k]][0], cx.t(res["tuple"][0][k][1]) == LR[k][i[k]][1]) for k in range(D)])
             return
         yield "no_exception", "raised" not in res and "tuple" not in res
         if "raised" in res or "tuple" in res:
@@ -379,11 +397,11 @@ class C11IndexND(Harness):
         re_ = [res["edges"]] if len(kept) == 1 else res["edges"]
         for t in range(len(kept)):
             yield from geom_consistent(cx, rb[t], re_[t], f"edges_match_bins[{t}]")
-            if kshape[t] and (codes[kept[t]] if kept[t] < len(codes) else ":") != "t":
+            if kshape[t] and (codes[kept[t]] if kept[t] < len(codes) else ":") != "t" and not (p.get("gapped") and kept[t] == 1 and kshape[t] > 1):
                 yield f"edges_available[{t}]", not isinstance(re_[t], Raised)
         for t, k in enumerate(kept):
             for s_, j in enumerate(sel[k]):
-                yield f"bins[{t}][{s_}]", z3.And(cx.t(rb[t][s_][0]) == e[k][j], cx.t(rb[t][s_][1]) == e[k][j + 1])
+                yield f"bins[{t}][{s_}]", z3.And(cx.t(rb[t][s_][0]) == LR[k][j][0], cx.t(rb[t][s_][1]) == LR[k][j][1])
         for ridx in product_indices(kshape):
             src = [None] * D
             for t, k in enumerate(kept):
